@@ -22,19 +22,27 @@ from harness import _dendro as dd
 
 TOL = 1e-9          # float64 paths (DESIGN section 8): |x - y| <= TOL * (1 + |y|)
 
-RULE = ('all merge orders of dendrograms over n <= 5 leaves (quick; thorough n <= 6, sampled n = 7) x height patterns '
-        '{distinct, all tied, some ties, monotone towards the root but unsorted, infinite tail, arbitrary}, sampled orders '
-        'up to 10 leaves; per dendrogram: cut_straight x n_clusters in {None, 1..n, 0, n+1} x thresholds around the heights '
-        'x sort_clusters x return_dendrogram, cut_balanced x max_cluster_size in 1..n+1, aggregate_dendrogram x n_clusters '
-        'in 0..n+1 x return_counts; metrics on weighted (di)graphs over the leaves x {uniform, degree} x normalized. '
-        'A cut/aggregation case is non-trivial when the function returns and the result has more than one and fewer than n '
-        'clusters; a metric case when the graph has at least two edges; distinct = distinct (function, dendrogram, options, graph)')
+RULE = ('the empty dendrogram (one leaf); all merge orders of dendrograms over n <= 5 leaves (quick; thorough n <= 6, sampled n = 7) '
+        'x height patterns {distinct, all tied, some ties, monotone towards the root but unsorted, the same with distinct heights, '
+        'infinite tail, arbitrary} (quick: 2 patterns for n = 5, 120 orders for n = 6), sampled orders up to 10 leaves. Options per '
+        'dendrogram: the full cross product cut_straight x n_clusters in {None, 0..n+1} x thresholds around the heights x '
+        'sort_clusters x return_dendrogram, cut_balanced x max_cluster_size in 1..n+1 x options, aggregate_dendrogram x n_clusters in '
+        '0..n+1 x return_counts for n <= 4; for n >= 5 a SAMPLE per dendrogram (2 + 7 cut_straight, 4 cut_balanced, 2 + 3 aggregate '
+        'combinations). Dendrograms with an inversion are sent too (known finding F24). Metrics x {uniform, degree} x normalized on: all '
+        'graphs of 3 nodes with loops, sampled digraphs, structured weighted (di)graphs n <= 9, every non-empty pattern on 2 nodes, '
+        'empty graphs (errors compared), rank-one matrices outer(r, c) n = 2..4 (mutual information 0), weights that are not float32 '
+        'numbers or exceed 2^24, dendrograms of Paris. A cut/aggregation case is non-trivial when the function returns and the result '
+        'has more than one and fewer than n clusters; a metric case when the graph has at least two edges; distinct = distinct '
+        '(function, dendrogram, options, graph)')
 ASSUMPTIONS = ['np.argsort(-sizes) returns a permutation sorting the sizes in non-increasing order (order among equal sizes free)',
                'np.sort / np.lexsort sort; scipy csr construction, A + A.T, diags, dot are the substrate',
-               'float64 rounding of the metrics is outside the theorems: values compared within 1e-9 (1 + |x|)',
-               'return_dendrogram=True of cut_straight and every "below the cut" clause are claimed for dendrograms whose '
-               'heights never decrease towards the root (reorder_dendrogram is meaningless otherwise)',
-               "a self-loop's smallest cluster is the first merge containing its node (clusters = merges of the dendrogram)"]
+               'float64 rounding of the metrics is outside the theorems (which are over the rationals / reals): values are '
+               'compared within 1e-9 (1 + |x|); tree_sampling_divergence: the bits of the model\'s Float value are decoded and '
+               'compared within the same tolerance, not bit for bit',
+               'the theorems about the count, the threshold and return_dendrogram=True of cut_straight assume heights that never '
+               'decrease towards the root; the executable specification does not (known finding F24 on inputs with an inversion)',
+               "a self-loop's smallest cluster is the first merge containing its node (clusters = merges of the dendrogram): the "
+               'definition was written to agree with the code on loops; the property text read literally would charge size 1']
 
 
 # ---------------------------------------------------------------------------------------------------
@@ -89,7 +97,8 @@ def case_straight(d, n, k, thr, srt, ret, mono=None):
                                                return_dendrogram=ret), ret))
     run = 'c08.cut_straight %s %s %s %s %s' % (dt, _opt(k), _opt_ht(thr), enc_bool(srt), enc_bool(ret))
     spec = None
-    admissible = (k is None or 1 <= k <= n)
+    # the default n_clusters = 2 is not admissible on a single leaf
+    admissible = (1 <= k <= n) if k is not None else (thr is not None or n >= 2)
     nontriv = False
     if impl.startswith('ok '):
         _, lab, red = impl.split(' ')
@@ -168,6 +177,7 @@ def cases_metrics(a, d, n, gname=''):
     mt = _mat_tok(a)
     gdesc = {'n': n, 'dense': a.toarray().tolist()}
     nontriv = a.nnz >= 2
+    admissible = bool(a.nnz >= 1 and n >= 2 and (a.data > 0).any())      # an empty graph is refused (ValueError)
     for weights in ('uniform', 'degree'):
         deg = enc_bool(weights == 'degree')
         for norm in (False, True):
@@ -183,7 +193,7 @@ def cases_metrics(a, d, n, gname=''):
                      run, impl, spec, nontriv,
                      {'f': 'dasgupta_cost', 'graph': gdesc, 'dendrogram': _ddesc(d), 'weights': weights, 'normalized': norm},
                      canon='rat')
-            c.tol = True
+            c.tol = admissible
             out.append(c)
 
             def g():
@@ -192,14 +202,17 @@ def cases_metrics(a, d, n, gname=''):
             impl = _call(g)
             run = 'c08.tsd %d %s %s %s %s' % (n, mt, dt, deg, enc_bool(norm))
             spec = None
-            if impl.startswith('ok ') and norm:
+            if impl.startswith('ok '):
                 v = float(impl[3:])
-                spec = 'c08.spec_range %s' % (enc_rat(Fraction(v)) if math.isfinite(v) else '2')
+                if norm:
+                    spec = 'c08.spec_range %s' % (enc_rat(Fraction(v)) if math.isfinite(v) else '2')
+                else:
+                    spec = 'c08.spec_nonneg %s' % (enc_rat(Fraction(v)) if math.isfinite(v) else '-1')
             c = Case(('tsd', mt, dt, weights, norm), {'entry': 'tree_sampling_divergence', 'weights': weights, 'normalized': norm},
                      run, impl, spec, nontriv,
                      {'f': 'tree_sampling_divergence', 'graph': gdesc, 'dendrogram': _ddesc(d), 'weights': weights, 'normalized': norm},
                      canon='bits')
-            c.tol = True
+            c.tol = admissible
             out.append(c)
 
         def h():
@@ -212,7 +225,7 @@ def cases_metrics(a, d, n, gname=''):
             spec = 'c08.spec_range %s' % (enc_rat(Fraction(v)) if math.isfinite(v) else '2')
         c = Case(('dasgupta_score', mt, dt, weights), {'entry': 'dasgupta_score', 'weights': weights}, None, impl, spec, nontriv,
                  {'f': 'dasgupta_score', 'graph': gdesc, 'dendrogram': _ddesc(d), 'weights': weights})
-        c.tol = True
+        c.tol = admissible
         out.append(c)
     return out
 
@@ -336,6 +349,9 @@ def cases_for_dendro(ctx, d, n, rng, full, mono):
 def dendros(ctx, rng, quick):
     """(dendrogram, n, mono, full_options) stream."""
     modes = dd.HEIGHT_MODES
+    # a single leaf: the empty dendrogram
+    ctx.count('dendro:n=1')
+    yield np.zeros((0, 4)), 1, True, True
     for n in (2, 3):
         for pairs in dd.all_merge_orders(n):
             for mode in modes:
@@ -356,7 +372,7 @@ def dendros(ctx, rng, quick):
                 d = dd.mk_dendro(pairs, hs, n, rng)
                 ctx.count('dendro:n=%d' % n)
                 ctx.count('heights:' + mode)
-                yield d, n, dd.is_mono_paths(d, n), False
+                yield d, n, dd.is_mono_paths(d, n), (n == 4)
     for _ in range(60 if quick else 800):
         n = rng.randint(7, 10)
         pairs = rng.choice([dd.random_merge_order(rng, n), dd.random_merge_order(rng, n), dd.caterpillar(n)])
@@ -396,6 +412,10 @@ def metric_inputs(ctx, rng, quick):
         yield a, d, n, name
     # the smallest admissible size: every non-empty matrix pattern on 2 nodes, unit and mixed weights
     d2 = np.array([[0, 1, 1.0, 2]], dtype=float)
+    # empty graphs: refused by the code and by the model (the errors are compared)
+    ctx.count('metric-graph:empty')
+    yield sparse.csr_matrix((2, 2), dtype=float), d2.copy(), 2, 'empty'
+    yield sparse.csr_matrix((3, 3), dtype=float), np.array([[0, 1, 1.0, 2], [3, 2, 2.0, 3]], dtype=float), 3, 'empty'
     for bits in range(1, 16):
         slots = [(0, 0), (0, 1), (1, 0), (1, 1)]
         es = [slots[k] for k in range(4) if bits >> k & 1]
@@ -510,6 +530,15 @@ def search(ctx, pending):
             a = graphs.csr_from_edges(3, es, [1.0] * len(es))
             for pairs in dd.all_merge_orders(3):
                 cases += cases_metrics(a, dd.mk_dendro(pairs, [1.0, 2.0], 3), 3)
+    # the first inputs of every metric stream of the run (digraphs, weights, n = 2, rank one, non-dyadic weights)
+    sub0 = Sub(ctx)
+    seen = {}
+    for a, d, n, name in metric_inputs(sub0, rng, True):
+        key = name.split('-')[0]
+        if seen.get(key, 0) >= 12:
+            continue
+        seen[key] = seen.get(key, 0) + 1
+        cases += cases_metrics(a, d, n, name)
     sub = Sub(ctx)
     evaluate(sub, cases)
     return sub.found()
@@ -517,7 +546,10 @@ def search(ctx, pending):
 
 def replay(ctx, payload):
     case = payload.get('case') or {}
+    if not case and isinstance(payload.get('what_no_longer_checks'), dict):
+        case = payload['what_no_longer_checks'].get('case') or {}
     cs = cases_from_desc(case)
     if not cs:
+        ctx.note('replay: the payload does not describe a re-runnable case; running the whole tier instead')
         cs = build_cases(ctx)
     evaluate(ctx, cs)
